@@ -418,7 +418,9 @@ func runCase(rp *Replay, cg *caseGen) (*Case, error) {
 		}
 	}
 	stream := "chain"
-	if rp.Name != "" {
+	if strings.HasPrefix(rp.Name, "exhaustive-") {
+		stream = "exhaustive"
+	} else if rp.Name != "" {
 		stream = "corpus"
 	} else if rp.Sel != nil {
 		stream = "select"
